@@ -4,6 +4,8 @@ import (
 	"context"
 	"errors"
 	"sync/atomic"
+
+	"github.com/klev-dev/klevdb/pkg/vhook"
 )
 
 var ErrOffsetNotifyClosed = errors.New("offset notify already closed")
@@ -25,12 +27,14 @@ func NewOffset(nextOffset int64) *Offset {
 }
 
 func (w *Offset) Wait(ctx context.Context, offset int64) error {
+	vhook.Pause("wait.enter")
 	// quick path, just load and check
 	if w.nextOffset.Load() > offset {
 		return nil
 	}
 
 	// acquire current barrier
+	vhook.Pause("wait.take")
 	b, ok := <-w.barrier
 	if !ok {
 		// already closed, return error
@@ -38,9 +42,11 @@ func (w *Offset) Wait(ctx context.Context, offset int64) error {
 	}
 
 	// probe the current offset
+	vhook.Pause("wait.probe")
 	updated := w.nextOffset.Load() > offset
 
 	// release current barrier
+	vhook.Pause("wait.put")
 	w.barrier <- b
 
 	// already has a new value, return
@@ -49,6 +55,7 @@ func (w *Offset) Wait(ctx context.Context, offset int64) error {
 	}
 
 	// now wait for something to happen
+	vhook.Pause("wait.park")
 	select {
 	case <-b:
 		return nil
@@ -59,6 +66,7 @@ func (w *Offset) Wait(ctx context.Context, offset int64) error {
 
 func (w *Offset) Set(nextOffset int64) {
 	// acquire current barrier
+	vhook.Pause("set.take")
 	b, ok := <-w.barrier
 	if !ok {
 		// already closed
@@ -66,19 +74,23 @@ func (w *Offset) Set(nextOffset int64) {
 	}
 
 	// set the new offset
+	vhook.Pause("set.store")
 	if w.nextOffset.Load() < nextOffset {
 		w.nextOffset.Store(nextOffset)
 	}
 
 	// close the current barrier, e.g. broadcasting update
+	vhook.Pause("set.close")
 	close(b)
 
 	// create new barrier
+	vhook.Pause("set.put")
 	w.barrier <- make(chan struct{})
 }
 
 func (w *Offset) Close() error {
 	// acquire current barrier
+	vhook.Pause("close.take")
 	b, ok := <-w.barrier
 	if !ok {
 		// already closed, return an error
@@ -86,9 +98,11 @@ func (w *Offset) Close() error {
 	}
 
 	// close the current barrier, e.g. broadcasting update
+	vhook.Pause("close.closeb")
 	close(b)
 
 	// close the barrier channel, completing process
+	vhook.Pause("close.closebarrier")
 	close(w.barrier)
 
 	return nil
